@@ -53,6 +53,35 @@ PROPS = {
                 "SHA-256 of the event log",
         "assumptions": FLEET_ASSUME + ["the byte-string universe of stored values is sampled through what simulated applications store, not by a dedicated fuzzer"],
     },
+    "C04": {
+        "level": "exploration",
+        "profiles": [{"name": "fleet-delete", "weight": 1}],
+        "rule": "each case is one seeded delete-heavy fleet run (2-4 instances, restarts that re-merge old snapshots, bucket faults; in a third "
+                "of the runs the tomb sweeper with generated retention / load-cutoff configurations on the fake clock); every LS transaction is "
+                "checked for 'a stored deletion is only replaced by a version above it' and 'no expired marker re-created', every upload for "
+                "'all markers travel', the end state for 'winning deletions are absent everywhere'; non-trivial = deletion markers were stored "
+                "while snapshots were merged; distinct = distinct SHA-256 of the event log",
+        "assumptions": FLEET_ASSUME,
+    },
+    "C05": {
+        "level": "exploration",
+        "profiles": [{"name": "fleet-bucket", "weight": 1}],
+        "rule": "each case is one seeded fleet run with cleaners on (short generated intervals), crash/restart with kept or emptied LMDB at "
+                "scheduler-chosen yield points, failing List/Load/Store/Delete before or after their effect; after every bucket mutation the "
+                "LWW join over the newest decodable snapshot of every instance is recomputed and must not lose a key or go back in time; "
+                "plus: no upload before the own newest snapshot was merged, a Store failing beyond the retry budget ends Sync with an error; "
+                "non-trivial = at least two bucket mutations checked with application writes; distinct = distinct SHA-256 of the event log",
+        "assumptions": FLEET_ASSUME,
+    },
+    "C10": {
+        "level": "exploration",
+        "profiles": [{"name": "fleet-quiesce", "weight": 1}],
+        "rule": "each case is one seeded fleet history (native/shadow, with/without header padding, 2-4 instances) driven to convergence, "
+                "followed by a silent phase (no uploads, LastTxnID constant on every instance) and a restart of one instance whose start-up "
+                "snapshot carries nothing new (others: no upload, no LMDB commit; restarted one: at most one upload); non-trivial = convergence "
+                "premise reached with application writes and downloads; distinct = distinct SHA-256 of the event log",
+        "assumptions": FLEET_ASSUME,
+    },
 }
 
 ALL_PROFILES = sorted({p["name"] for c in PROPS.values() for p in c["profiles"]})
